@@ -1,11 +1,561 @@
-(** C13 -- proofs about the clustering model (model/C13_Model.v). *)
-From Coq Require Import List NArith ZArith Bool Arith Lia.
-From SK Require Import lib.LGraph lib.Mono model.C13_Model.
+(** C13 -- proofs about the clustering model (model/C13_Model.v).
+
+    Part 1: the structure-following models refine the generic first-representative specification of
+            lib/C13_Partition.v:
+              lib_check  = classify,  cluster = classify_list,  cluster_batches = classify_list on the
+              concatenation,  concat (chunks b l) = l,
+              gc_fit (visited set, attribute pre-filter, inner/outer loops) = map (class_of R data) data.
+    Part 2: the theorems of props/C13.v. *)
+From Coq Require Import List NArith ZArith Bool Arith Lia Permutation.
+From SK Require Import lib.LGraph lib.Mono lib.C13_Partition model.C13_Model.
 Import ListNotations.
 
+(* ------------------------------------------------------------------ small facts *)
 Lemma memb_spec i l : memb i l = true <-> In i l.
 Proof.
   unfold memb. rewrite existsb_exists. split.
   - intros (y & Hy & E). apply Nat.eqb_eq in E. now subst.
   - intros H. exists i. split; [exact H|apply Nat.eqb_refl].
 Qed.
+
+Lemma memb_cons_ne i j l : i <> j -> memb i (j :: l) = memb i l.
+Proof. intros H. unfold memb. simpl. apply Nat.eqb_neq in H. now rewrite H. Qed.
+
+Lemma memb_cons_eq i l : memb i (i :: l) = true.
+Proof. unfold memb. simpl. now rewrite Nat.eqb_refl. Qed.
+
+Lemma zlist_eqb_eq a b : zlist_eqb a b = true <-> a = b.
+Proof.
+  revert b. induction a as [|x a IH]; intros [|y b]; simpl; split; try discriminate; try reflexivity.
+  - intros H. apply andb_prop in H. destruct H as [H1 H2]. apply Z.eqb_eq in H1. apply IH in H2. congruence.
+  - intros E. inversion E; subst. rewrite Z.eqb_refl. simpl. now apply IH.
+Qed.
+
+Lemma zlist_eqb_refl a : zlist_eqb a a = true.
+Proof. now apply zlist_eqb_eq. Qed.
+
+Lemma bc_key_gc_key mode x : bc_key mode x = gc_key mode x.
+Proof. destruct mode; reflexivity. Qed.
+
+Lemma assoc_nat_app {V} k (a b : list (nat * V)) :
+  assoc_nat k (a ++ b) = match assoc_nat k a with Some v => Some v | None => assoc_nat k b end.
+Proof.
+  induction a as [|[k' v] r IH]; simpl; [reflexivity|]. destruct (Nat.eqb k k'); [reflexivity|exact IH].
+Qed.
+
+Lemma assoc_nat_notin {V} k (a : list (nat * V)) : ~ In k (map fst a) -> assoc_nat k a = None.
+Proof.
+  induction a as [|[k' v] r IH]; simpl; intros H; [reflexivity|].
+  destruct (Nat.eqb_spec k k') as [->|Hne]; [exfalso; apply H; now left|]. apply IH. intros I. apply H. now right.
+Qed.
+
+Lemma enum_from_fst {X} s (l : list X) : map fst (enum_from s l) = seq s (length l).
+Proof. revert s. induction l as [|x r IH]; intros s; simpl; [reflexivity|]. now rewrite IH. Qed.
+
+Lemma enum_from_snd {X} s (l : list X) : map snd (enum_from s l) = l.
+Proof. revert s. induction l as [|x r IH]; intros s; simpl; [reflexivity|]. now rewrite IH. Qed.
+
+Lemma find_filter {A} (p q : A -> bool) l : find p (filter q l) = find (fun t => q t && p t) l.
+Proof.
+  induction l as [|a r IH]; simpl; [reflexivity|].
+  destruct (q a); simpl; [destruct (p a); [reflexivity|exact IH]|exact IH].
+Qed.
+
+Lemma find_ext {A} (p q : A -> bool) l : (forall a, p a = q a) -> find p l = find q l.
+Proof. intros H. induction l as [|a r IH]; simpl; [reflexivity|]. rewrite H, IH. reflexivity. Qed.
+
+(* ------------------------------------------------------------------ Part 1: refinement *)
+Section Refine.
+Variable iso : item -> item -> bool.
+Variable mode : attr_mode.
+
+(** the relation the code actually evaluates: attribute pre-filter, then the isomorphism test *)
+Definition Rc (rep x : item) : bool := zlist_eqb (gc_key mode rep) (gc_key mode x) && iso rep x.
+
+(* ---- BatchCluster ---- *)
+Lemma lib_check_classify x ts : lib_check iso mode x ts = classify Rc ts x.
+Proof.
+  unfold lib_check, classify, max_class. rewrite find_filter.
+  rewrite (find_ext _ (fun t => Rc (fst t) x)); [reflexivity|].
+  intros t. unfold Rc. now rewrite !bc_key_gc_key.
+Qed.
+
+Lemma cluster_classify_list data ts : cluster iso mode data ts = classify_list Rc ts data.
+Proof.
+  revert ts. induction data as [|x r IH]; intros ts; simpl; [reflexivity|].
+  rewrite lib_check_classify. destruct (classify Rc ts x) as [c ts1]. rewrite IH. reflexivity.
+Qed.
+
+Lemma cluster_batches_concat batches ts :
+  cluster_batches iso mode batches ts = classify_list Rc ts (concat batches).
+Proof.
+  revert ts. induction batches as [|b r IH]; intros ts; simpl; [reflexivity|].
+  rewrite cluster_classify_list, classify_list_app.
+  destruct (classify_list Rc ts b) as [cs ts1]. rewrite IH. reflexivity.
+Qed.
+
+Lemma chunks_fuel_concat {X} fuel b (l : list X) : 1 <= b -> length l <= fuel -> concat (chunks_fuel fuel b l) = l.
+Proof.
+  intros Hb. revert l. induction fuel as [|f IH]; intros l Hl.
+  - destruct l; [reflexivity|simpl in Hl; lia].
+  - destruct l as [|x r]; [reflexivity|].
+    change (chunks_fuel (S f) b (x :: r)) with (firstn b (x :: r) :: chunks_fuel f b (skipn b (x :: r))).
+    simpl concat. rewrite IH; [apply firstn_skipn|].
+    rewrite skipn_length. cbn [length] in *. lia.
+Qed.
+
+Lemma chunks_concat {X} b (l : list X) : 1 <= b -> concat (chunks b l) = l.
+Proof. intros Hb. unfold chunks. apply chunks_fuel_concat; [exact Hb|apply le_n]. Qed.
+
+(* ---- GraphCluster: inner loop ---- *)
+Lemma gc_inner_spec xi c rest : forall cl vis rc cl' vis' rc',
+  NoDup (map fst rest) ->
+  gc_inner iso mode xi c rest (cl, vis, rc) = (cl', vis', rc') ->
+  (exists ext, rc' = rc ++ ext /\ forall k, In k (map fst ext) -> In k (map fst rest)) /\
+  (forall k, ~ In k (map fst rest) -> memb k vis' = memb k vis) /\
+  (forall j xj, In (j, xj) rest ->
+     memb j vis' = memb j vis || Rc xi xj /\
+     assoc_nat j rc' = match assoc_nat j rc with
+                       | Some v => Some v
+                       | None => if negb (memb j vis) && Rc xi xj then Some c else None
+                       end).
+Proof.
+  induction rest as [|[j0 x0] r IH]; intros cl vis rc cl' vis' rc' Hnd E; simpl in E.
+  - inversion E; subst. split; [exists []; split; [now rewrite app_nil_r|intros k []]|].
+    split; [reflexivity|intros j xj []].
+  - simpl in Hnd. inversion Hnd as [|? ? Hj0 Hnd']; subst.
+    destruct (zlist_eqb (gc_key mode xi) (gc_key mode x0) && negb (memb j0 vis)) eqn:Ec;
+      [destruct (iso xi x0) eqn:Ei|].
+    + (* j0 joins the cluster *)
+      apply andb_prop in Ec. destruct Ec as [Ek Ev]. apply negb_true_iff in Ev.
+      destruct (IH _ _ _ _ _ _ Hnd' E) as ((ext & Eext & Hext) & Hout & Hin).
+      assert (HR0 : Rc xi x0 = true) by (unfold Rc; now rewrite Ek, Ei).
+      split; [|split].
+      * exists ((j0, c) :: ext). split; [subst rc'; now rewrite <- app_assoc|].
+        intros k [<-|Hk]; [now left|right; auto].
+      * intros k Hk. rewrite Hout by (intros I; apply Hk; now right).
+        apply memb_cons_ne. intros ->. apply Hk. now left.
+      * intros j xj [Ejx|Hjx].
+        -- inversion Ejx; subst j xj. rewrite (Hout j0 Hj0), memb_cons_eq, HR0, Ev, orb_true_r. split; [reflexivity|].
+           subst rc'. rewrite !assoc_nat_app. simpl. rewrite Nat.eqb_refl.
+           destruct (assoc_nat j0 rc); reflexivity.
+        -- assert (Hne : j <> j0) by (intros ->; apply Hj0; change j0 with (fst (j0, xj)); now apply in_map).
+           destruct (Hin j xj Hjx) as (H1 & H2). rewrite memb_cons_ne in H1, H2 by exact Hne.
+           split; [exact H1|]. rewrite H2, assoc_nat_app. simpl.
+           apply Nat.eqb_neq in Hne. rewrite Hne. destruct (assoc_nat j rc); reflexivity.
+    + (* attribute and visited test passed, isomorphism test failed *)
+      apply andb_prop in Ec. destruct Ec as [Ek Ev]. apply negb_true_iff in Ev.
+      destruct (IH _ _ _ _ _ _ Hnd' E) as ((ext & Eext & Hext) & Hout & Hin).
+      assert (HR0 : Rc xi x0 = false) by (unfold Rc; now rewrite Ek, Ei).
+      split; [|split].
+      * exists ext. split; [exact Eext|]. intros k Hk. right. auto.
+      * intros k Hk. apply Hout. intros I. apply Hk. now right.
+      * intros j xj [Ejx|Hjx]; [|now apply Hin].
+        inversion Ejx; subst j xj. rewrite (Hout j0 Hj0), HR0, Ev. split; [reflexivity|].
+        subst rc'. rewrite assoc_nat_app. simpl.
+        rewrite (assoc_nat_notin j0 ext) by (intros I; apply Hj0; auto).
+        destruct (assoc_nat j0 rc); reflexivity.
+    + (* pre-filter or visited test failed *)
+      destruct (IH _ _ _ _ _ _ Hnd' E) as ((ext & Eext & Hext) & Hout & Hin).
+      split; [|split].
+      * exists ext. split; [exact Eext|]. intros k Hk. right. auto.
+      * intros k Hk. apply Hout. intros I. apply Hk. now right.
+      * intros j xj [Ejx|Hjx]; [|now apply Hin].
+        inversion Ejx; subst j xj. rewrite (Hout j0 Hj0).
+        assert (Hor : memb j0 vis || Rc xi x0 = memb j0 vis /\ negb (memb j0 vis) && Rc xi x0 = false).
+        { unfold Rc. apply andb_false_iff in Ec. destruct Ec as [Ek|Ev].
+          - rewrite Ek. simpl. now rewrite orb_false_r, andb_false_r.
+          - apply negb_false_iff in Ev. rewrite Ev. simpl. now split. }
+        destruct Hor as [-> ->]. split; [reflexivity|].
+        subst rc'. rewrite assoc_nat_app.
+        rewrite (assoc_nat_notin j0 ext) by (intros I; apply Hj0; auto).
+        destruct (assoc_nat j0 rc); reflexivity.
+Qed.
+
+Lemma related_in_app (L L' : list item) x : related_in Rc (L ++ L') x = related_in Rc L x || related_in Rc L' x.
+Proof. unfold related_in. apply existsb_app. Qed.
+
+(* ---- GraphCluster: outer loop ---- *)
+Lemma gc_outer_spec todo : forall visited clusters r2c L,
+  NoDup (map fst todo) ->
+  (forall j xj, In (j, xj) todo -> Rc xj xj = true) ->
+  (forall j xj, In (j, xj) todo -> memb j visited = related_in Rc L xj) ->
+  (forall j xj, In (j, xj) todo -> memb j visited = true -> assoc_nat j r2c = index_of Rc L xj) ->
+  (forall j xj, In (j, xj) todo -> memb j visited = false -> assoc_nat j r2c = None) ->
+  length clusters = length L ->
+  let '(cl_f, r2c_f) := gc_outer iso mode todo visited clusters r2c in
+  let Lf := leaders_from Rc L (map snd todo) in
+  (exists ext, r2c_f = r2c ++ ext) /\ length cl_f = length Lf /\
+  forall j xj, In (j, xj) todo -> assoc_nat j r2c_f = index_of Rc Lf xj.
+Proof.
+  induction todo as [|[i xi] rest IH]; intros visited clusters r2c L Hnd Hrefl HV HC HF HN; simpl.
+  - split; [exists []; now rewrite app_nil_r|]. split; [exact HN|intros j xj []].
+  - simpl in Hnd. inversion Hnd as [|? ? Hi Hnd']; subst.
+    assert (Hrest : forall j xj, In (j, xj) rest -> j <> i).
+    { intros j xj Hj ->. apply Hi. change i with (fst (i, xj)). now apply in_map. }
+    destruct (memb i visited) eqn:Evis.
+    + (* already visited: i was attached to an earlier leader *)
+      assert (Hrel : related_in Rc L xi = true) by (rewrite <- (HV i xi) by (now left); exact Evis).
+      rewrite Hrel.
+      specialize (IH visited clusters r2c L Hnd'
+                     (fun j xj H => Hrefl j xj (or_intror H)) (fun j xj H => HV j xj (or_intror H))
+                     (fun j xj H => HC j xj (or_intror H)) (fun j xj H => HF j xj (or_intror H)) HN).
+      destruct (gc_outer iso mode rest visited clusters r2c) as [cl_f r2c_f].
+      destruct IH as ((ext & Eext) & Hlen & Hall). split; [eauto|]. split; [exact Hlen|].
+      intros j xj [Ejx|Hjx]; [|now apply Hall].
+      inversion Ejx; subst j xj.
+      pose proof (HC i xi (or_introl eq_refl) Evis) as Hc.
+      apply index_of_some in Hrel. destruct Hrel as (n & Hn). rewrite Hn in Hc.
+      destruct (leaders_from_prefix _ Rc L (map snd rest)) as (L' & EL). rewrite EL.
+      rewrite (index_of_app _ Rc _ _ _ _ Hn). subst r2c_f. rewrite assoc_nat_app, Hc. reflexivity.
+    + (* a new leader *)
+      assert (Hrel : related_in Rc L xi = false) by (rewrite <- (HV i xi) by (now left); exact Evis).
+      rewrite Hrel.
+      destruct (gc_inner iso mode xi (length clusters) rest ([i], i :: visited, r2c ++ [(i, length clusters)]))
+        as [[cluster vis'] rc'] eqn:Einner.
+      destruct (gc_inner_spec _ _ _ _ _ _ _ _ _ Hnd' Einner) as ((ext & Eext & Hext) & Hout & Hin).
+      assert (Hidx : index_of Rc L xi = None) by (now apply index_of_none).
+      assert (Hri : Rc xi xi = true) by (apply (Hrefl i xi); now left).
+      assert (HV' : forall j xj, In (j, xj) rest -> memb j vis' = related_in Rc (L ++ [xi]) xj).
+      { intros j xj Hj. destruct (Hin j xj Hj) as (H1 & _). rewrite H1.
+        rewrite memb_cons_ne by (eapply Hrest; eauto). rewrite (HV j xj (or_intror Hj)).
+        rewrite related_in_app. simpl. now rewrite orb_false_r. }
+      assert (Hassoc : forall j xj, In (j, xj) rest ->
+                assoc_nat j rc' = match assoc_nat j r2c with
+                                  | Some v => Some v
+                                  | None => if negb (memb j visited) && Rc xi xj then Some (length clusters) else None
+                                  end).
+      { intros j xj Hj. destruct (Hin j xj Hj) as (_ & H2). rewrite H2.
+        assert (Hne : j <> i) by (eapply Hrest; eauto).
+        rewrite memb_cons_ne by exact Hne.
+        rewrite assoc_nat_app. cbn [assoc_nat]. apply Nat.eqb_neq in Hne. rewrite Hne.
+        destruct (assoc_nat j r2c); reflexivity. }
+      assert (HC' : forall j xj, In (j, xj) rest -> memb j vis' = true -> assoc_nat j rc' = index_of Rc (L ++ [xi]) xj).
+      { intros j xj Hj Hv. rewrite (Hassoc j xj Hj).
+        destruct (memb j visited) eqn:Ej.
+        - pose proof (HC j xj (or_intror Hj) Ej) as Hc.
+          assert (Hr : related_in Rc L xj = true) by (rewrite <- (HV j xj (or_intror Hj)); exact Ej).
+          apply index_of_some in Hr. destruct Hr as (n & Hn). rewrite Hn in Hc. rewrite Hc.
+          now rewrite (index_of_app _ Rc _ _ _ _ Hn).
+        - rewrite (HF j xj (or_intror Hj) Ej). simpl.
+          assert (Hr : related_in Rc L xj = false) by (rewrite <- (HV j xj (or_intror Hj)); exact Ej).
+          apply index_of_none in Hr. rewrite (index_of_app_none _ Rc _ _ _ Hr). simpl.
+          rewrite (HV' j xj Hj), related_in_app in Hv. simpl in Hv. rewrite orb_false_r in Hv.
+          assert (Hr' : related_in Rc L xj = false) by (now apply index_of_none). rewrite Hr' in Hv. simpl in Hv.
+          rewrite Hv. simpl. now rewrite HN, Nat.add_0_r. }
+      assert (HF' : forall j xj, In (j, xj) rest -> memb j vis' = false -> assoc_nat j rc' = None).
+      { intros j xj Hj Hv. rewrite (Hassoc j xj Hj).
+        rewrite (HV' j xj Hj), related_in_app in Hv. simpl in Hv. rewrite orb_false_r in Hv.
+        apply orb_false_iff in Hv. destruct Hv as [Hv1 Hv2].
+        rewrite <- (HV j xj (or_intror Hj)) in Hv1. rewrite (HF j xj (or_intror Hj) Hv1), Hv2.
+        now rewrite andb_false_r. }
+      specialize (IH vis' (clusters ++ [cluster]) rc' (L ++ [xi]) Hnd'
+                     (fun j xj H => Hrefl j xj (or_intror H)) HV' HC' HF').
+      rewrite !app_length in IH. simpl in IH. specialize (IH ltac:(lia)).
+      destruct (gc_outer iso mode rest vis' (clusters ++ [cluster]) rc') as [cl_f r2c_f].
+      destruct IH as ((ext2 & Eext2) & Hlen & Hall).
+      split; [exists ([(i, length clusters)] ++ ext ++ ext2); subst; now rewrite <- !app_assoc|].
+      split; [exact Hlen|].
+      intros j xj [Ejx|Hjx]; [|now apply Hall].
+      inversion Ejx; subst j xj.
+      destruct (leaders_from_prefix _ Rc (L ++ [xi]) (map snd rest)) as (L' & EL). rewrite EL.
+      rewrite <- app_assoc. rewrite (index_of_app_none _ Rc _ _ _ Hidx). simpl. rewrite Hri. simpl.
+      subst r2c_f rc'. rewrite !assoc_nat_app.
+      rewrite (HF i xi (or_introl eq_refl) Evis). simpl. rewrite Nat.eqb_refl. now rewrite HN, Nat.add_0_r.
+Qed.
+
+(** GraphCluster.iterative_cluster / fit compute the first-representative specification *)
+Theorem gc_iterative_spec data : (forall x, In x data -> iso x x = true) ->
+  let '(clusters, r2c) := gc_iterative iso mode data in
+  length clusters = length (leaders Rc data) /\
+  forall j x, nth_error data j = Some x -> assoc_nat j r2c = class_of Rc data x.
+Proof.
+  intros Hrefl. unfold gc_iterative.
+  assert (Hin : forall j x, In (j, x) (enum_from 0 data) -> In x data).
+  { intros j x H. rewrite <- (enum_from_snd 0 data). change x with (snd (j, x)). now apply in_map. }
+  pose proof (gc_outer_spec (enum_from 0 data) [] [] [] []) as H.
+  rewrite enum_from_fst, enum_from_snd in H.
+  specialize (H (seq_NoDup _ _)).
+  assert (H1 : forall j xj, In (j, xj) (enum_from 0 data) -> Rc xj xj = true).
+  { intros j xj Hj. unfold Rc. rewrite zlist_eqb_refl. simpl. apply Hrefl. eauto. }
+  specialize (H H1 (fun _ _ _ => eq_refl) (fun j xj _ (E : memb j [] = true) => ltac:(discriminate))
+                (fun _ _ _ _ => eq_refl) eq_refl).
+  destruct (gc_outer iso mode (enum_from 0 data) [] [] []) as [clusters r2c].
+  destruct H as (_ & Hlen & Hall). split; [exact Hlen|].
+  intros j x Hj. apply Hall.
+  clear -Hj. assert (G : forall s, nth_error data j = Some x -> In (s + j, x) (enum_from s data)).
+  { revert j Hj. induction data as [|y r IH]; intros j Hj s Hs; [destruct j; discriminate|].
+    destruct j; simpl in *.
+    - inversion Hs; subst. left. now rewrite Nat.add_0_r.
+    - right. rewrite <- Nat.add_succ_comm. apply IH; assumption. }
+  exact (G 0 Hj).
+Qed.
+
+Theorem gc_fit_spec data : (forall x, In x data -> iso x x = true) ->
+  gc_fit iso mode data = map (class_of Rc data) data.
+Proof.
+  intros Hrefl. unfold gc_fit. pose proof (gc_iterative_spec data Hrefl) as H.
+  destruct (gc_iterative iso mode data) as [clusters r2c]. destruct H as (_ & Hall). simpl.
+  assert (G : forall s l, (forall j x, nth_error l j = Some x -> assoc_nat (s + j) r2c = class_of Rc data x) ->
+              map (fun ix : nat * item => assoc_nat (fst ix) r2c) (enum_from s l) = map (class_of Rc data) l).
+  { intros s l. revert s. induction l as [|y r IH]; intros s Hl; simpl; [reflexivity|].
+    f_equal.
+    - rewrite <- (Hl 0 y eq_refl). now rewrite Nat.add_0_r.
+    - apply IH. intros j x Hj. rewrite Nat.add_succ_comm. apply (Hl (S j) x). exact Hj. }
+  apply G. intros j x Hj. simpl. now apply Hall.
+Qed.
+
+End Refine.
+
+(* ------------------------------------------------------------------ Part 2: the theorems *)
+Section Theorems.
+Variable iso : item -> item -> bool.
+Variable mode : attr_mode.
+Variable D : item -> Prop.      (* the items on which [iso] is known to be an equivalence (e.g. well-formed graphs) *)
+Hypothesis iso_refl : forall x, D x -> iso x x = true.
+Hypothesis iso_sym : forall x y, D x -> D y -> iso x y = true -> iso y x = true.
+Hypothesis iso_trans : forall x y z, D x -> D y -> D z -> iso x y = true -> iso y z = true -> iso x z = true.
+(** the pre-grouping attribute is an isomorphism invariant (as the code reads it: lists as multisets) *)
+Hypothesis attr_inv : forall x y, D x -> D y -> iso x y = true -> gc_key mode x = gc_key mode y.
+
+Notation R := (Rc iso mode).
+
+Lemma Rc_iso x y : D x -> D y -> R x y = iso x y.
+Proof.
+  intros Dx Dy. unfold Rc. destruct (iso x y) eqn:E; [|apply andb_false_r].
+  rewrite (attr_inv x y Dx Dy E), zlist_eqb_refl. reflexivity.
+Qed.
+
+Lemma R_refl x : D x -> R x x = true.
+Proof. intros Dx. rewrite Rc_iso; auto. Qed.
+Lemma R_sym x y : D x -> D y -> R x y = true -> R y x = true.
+Proof. intros Dx Dy. rewrite !Rc_iso; auto. Qed.
+Lemma R_trans x y z : D x -> D y -> D z -> R x y = true -> R y z = true -> R x z = true.
+Proof. intros Dx Dy Dz. rewrite !Rc_iso; eauto. Qed.
+
+Lemma Forall_refl data : Forall D data -> forall x, In x data -> iso x x = true.
+Proof. intros H x Hx. rewrite Forall_forall in H. auto. Qed.
+
+Lemma nth_error_gc_fit data i x : Forall D data -> nth_error data i = Some x ->
+  nth_error (gc_fit iso mode data) i = Some (class_of R data x).
+Proof.
+  intros HD Hx. rewrite (gc_fit_spec iso mode data (Forall_refl data HD)).
+  now apply map_nth_error.
+Qed.
+
+(** C13_partition *)
+Theorem partition data : Forall D data ->
+  forall i j x y, nth_error data i = Some x -> nth_error data j = Some y ->
+  exists ci cj,
+    nth_error (gc_fit iso mode data) i = Some (Some ci) /\
+    nth_error (gc_fit iso mode data) j = Some (Some cj) /\
+    (ci = cj <-> iso x y = true).
+Proof.
+  intros HD i j x y Hx Hy.
+  assert (Ix : In x data) by (eapply nth_error_In; eauto). assert (Iy : In y data) by (eapply nth_error_In; eauto).
+  assert (Dx : D x) by (rewrite Forall_forall in HD; auto). assert (Dy : D y) by (rewrite Forall_forall in HD; auto).
+  destruct (class_of_total _ R D R_refl data x HD Ix) as (ci & Ei & _).
+  destruct (class_of_total _ R D R_refl data y HD Iy) as (cj & Ej & _).
+  exists ci, cj. rewrite (nth_error_gc_fit data i x HD Hx), (nth_error_gc_fit data j y HD Hy), Ei, Ej.
+  split; [reflexivity|]. split; [reflexivity|].
+  rewrite <- (Rc_iso x y Dx Dy). rewrite <- (class_of_partition _ R D R_refl R_sym R_trans data x y HD Ix Iy).
+  rewrite Ei, Ej. split; [congruence|intros E; now inversion E].
+Qed.
+
+(** C13_order_independent *)
+Theorem order_independent data data' : Permutation data data' -> Forall D data ->
+  length (fst (gc_iterative iso mode data)) = length (fst (gc_iterative iso mode data')) /\
+  forall i j i' j' x y,
+    nth_error data i = Some x -> nth_error data j = Some y ->
+    nth_error data' i' = Some x -> nth_error data' j' = Some y ->
+    (nth_error (gc_fit iso mode data) i = nth_error (gc_fit iso mode data) j <->
+     nth_error (gc_fit iso mode data') i' = nth_error (gc_fit iso mode data') j').
+Proof.
+  intros P HD. assert (HD' : Forall D data') by (eapply Permutation_Forall; eauto).
+  split.
+  - pose proof (gc_iterative_spec iso mode data (Forall_refl data HD)) as H.
+    pose proof (gc_iterative_spec iso mode data' (Forall_refl data' HD')) as H'.
+    destruct (gc_iterative iso mode data) as [cl r]. destruct (gc_iterative iso mode data') as [cl' r'].
+    destruct H as (H & _). destruct H' as (H' & _). simpl. rewrite H, H'.
+    apply (n_classes_order_indep _ R D R_refl R_sym R_trans); assumption.
+  - intros i j i' j' x y Hx Hy Hx' Hy'.
+    rewrite (nth_error_gc_fit data i x HD Hx), (nth_error_gc_fit data j y HD Hy).
+    rewrite (nth_error_gc_fit data' i' x HD' Hx'), (nth_error_gc_fit data' j' y HD' Hy').
+    assert (Ix : In x data) by (eapply nth_error_In; eauto). assert (Iy : In y data) by (eapply nth_error_In; eauto).
+    pose proof (class_of_order_indep _ R D R_refl R_sym R_trans data data' x y P HD Ix Iy) as H.
+    split; intros E; f_equal; apply H; congruence.
+Qed.
+
+(** templates on which "same class" and "isomorphic representatives" coincide *)
+Definition coherent_iso (ts : list template) : Prop :=
+  Forall D (map fst ts) /\
+  forall t t', In t ts -> In t' ts -> (iso (fst t) (fst t') = true <-> snd t = snd t').
+
+Lemma coherent_iso_R ts : coherent_iso ts <-> coherent R D ts.
+Proof.
+  unfold coherent_iso, coherent. split; intros (H1 & H2); (split; [exact H1|]); intros t t' It It';
+    rewrite Forall_forall in H1;
+    assert (D (fst t)) by (apply H1, in_map, It); assert (D (fst t')) by (apply H1, in_map, It').
+  - rewrite Rc_iso by assumption. now apply H2.
+  - rewrite <- Rc_iso by assumption. now apply H2.
+Qed.
+
+(** C13_incremental (one item) *)
+Theorem incremental x ts : coherent_iso ts -> D x ->
+  let '(c, ts') := lib_check iso mode x ts in
+  coherent_iso ts' /\
+  (forall t, In t ts -> iso (fst t) x = true -> c = snd t /\ ts' = ts) /\
+  ((forall t, In t ts -> iso (fst t) x = false) ->
+     c = (fold_right Z.max (-1) (map snd ts) + 1)%Z /\ ~ In c (map snd ts) /\ ts' = ts ++ [(x, c)]).
+Proof.
+  intros Hco Dx. rewrite lib_check_classify.
+  pose proof (classify_spec _ R D R_refl R_sym R_trans ts x (proj1 (coherent_iso_R ts) Hco) Dx) as H.
+  destruct (classify R ts x) as [c ts']. destruct H as (Hco' & _ & _ & Hyes & Hno).
+  destruct Hco as (HDt & _). rewrite Forall_forall in HDt.
+  split; [now apply coherent_iso_R|]. split.
+  - intros t It E. apply Hyes; [exact It|]. rewrite Rc_iso; auto. apply HDt, in_map, It.
+  - intros Hall. apply Hno. intros t It. rewrite Rc_iso; auto. apply HDt, in_map, It.
+Qed.
+
+(** C13_incremental (a run of BatchCluster.cluster from coherent templates) *)
+Theorem incremental_run data ts cs ts' : coherent_iso ts -> Forall D data ->
+  cluster iso mode data ts = (cs, ts') ->
+  coherent_iso ts' /\ (exists ext, ts' = ts ++ ext) /\ length cs = length data /\
+  (forall i j x y c c', nth_error data i = Some x -> nth_error data j = Some y ->
+      nth_error cs i = Some c -> nth_error cs j = Some c' -> (c = c' <-> iso x y = true)) /\
+  (forall i x c t, nth_error data i = Some x -> nth_error cs i = Some c -> In t ts' ->
+      (c = snd t <-> iso (fst t) x = true)).
+Proof.
+  intros Hco HD E. rewrite cluster_classify_list in E.
+  destruct (classify_list_partition _ R D R_refl R_sym R_trans ts data cs ts'
+              (proj1 (coherent_iso_R ts) Hco) HD E) as (Hco' & Hext & Hlen & Hpair & Htmpl).
+  split; [now apply coherent_iso_R|]. split; [exact Hext|]. split; [exact Hlen|].
+  rewrite Forall_forall in HD. split.
+  - intros i j x y c c' Hx Hy Hc Hc'. rewrite (Hpair i j x y c c' Hx Hy Hc Hc').
+    rewrite Rc_iso; [reflexivity| |]; apply HD; eapply nth_error_In; eauto.
+  - intros i x c t Hx Hc It. rewrite (Htmpl i x c t Hx Hc It).
+    destruct Hco' as (HDt' & _). rewrite Forall_forall in HDt'.
+    rewrite Rc_iso; [reflexivity|apply HDt', in_map, It|apply HD; eapply nth_error_In; eauto].
+Qed.
+
+End Theorems.
+
+(** C13_batch_equals_oneshot: needs only reflexivity of the isomorphism test on the data *)
+Section Batch.
+Variable iso : item -> item -> bool.
+Variable mode : attr_mode.
+
+Definition valid_batch_size (bs : option nat) : Prop :=
+  match bs with None => True | Some b => 1 <= b end.
+
+Lemma class_z_num o : class_z o = class_num o.
+Proof. destruct o; reflexivity. Qed.
+
+Lemma cluster_nil_gc_fit data : (forall x, In x data -> iso x x = true) ->
+  fst (cluster iso mode data []) = map class_z (gc_fit iso mode data).
+Proof.
+  intros Hrefl. rewrite cluster_classify_list, gc_fit_spec by exact Hrefl.
+  assert (Hr : forall x, In x data -> Rc iso mode x x = true).
+  { intros x Hx. unfold Rc. rewrite zlist_eqb_refl. simpl. auto. }
+  pose proof (classify_list_nil _ (Rc iso mode) data Hr) as H.
+  etransitivity; [exact (f_equal fst H)|].
+  simpl. rewrite map_map. apply map_ext. intros x. destruct (class_of (Rc iso mode) data x); reflexivity.
+Qed.
+
+(** with templates, or over several batches, fit is one left-to-right run of lib_check over the whole list *)
+Lemma fit_is_cluster data ts bs picks : valid_batch_size bs ->
+  (ts <> [] \/ length (match bs with Some b => chunks b data | None => [data] end) <> 1) ->
+  fit iso mode data ts bs picks = cluster iso mode data ts.
+Proof.
+  intros Hbs Hcase. unfold fit.
+  assert (Hcat : concat (match bs with Some b => chunks b data | None => [data] end) = data).
+  { destruct bs as [b|]; [apply chunks_concat; exact Hbs|simpl; apply app_nil_r]. }
+  destruct (match bs with Some b => chunks b data | None => [data] end) as [|b1 [|b2 r]] eqn:Eb.
+  - rewrite cluster_batches_concat, Hcat, cluster_classify_list. reflexivity.
+  - simpl in Hcat. rewrite app_nil_r in Hcat. subst b1.
+    destruct ts as [|t ts]; [|reflexivity]. destruct Hcase as [H|H]; [now elim H|simpl in H; now elim H].
+  - rewrite cluster_batches_concat, Hcat, cluster_classify_list. reflexivity.
+Qed.
+
+Theorem batch_equals_oneshot data bs picks : valid_batch_size bs ->
+  (forall x, In x data -> iso x x = true) ->
+  fst (fit iso mode data [] bs picks) = map class_z (gc_fit iso mode data).
+Proof.
+  intros Hbs Hrefl.
+  destruct (Nat.eq_dec (length (match bs with Some b => chunks b data | None => [data] end)) 1) as [E|E].
+  - unfold fit.
+    assert (Hcat : concat (match bs with Some b => chunks b data | None => [data] end) = data).
+    { destruct bs as [b|]; [apply chunks_concat; exact Hbs|simpl; apply app_nil_r]. }
+    destruct (match bs with Some b => chunks b data | None => [data] end) as [|b1 [|b2 r]]; try discriminate.
+    simpl in Hcat. rewrite app_nil_r in Hcat. subst b1. reflexivity.
+  - rewrite fit_is_cluster by (auto). now apply cluster_nil_gc_fit.
+Qed.
+
+End Batch.
+
+(* ------------------------------------------------------------------ non-vacuity *)
+(** (a) the premises of the theorems are satisfiable and the conclusions discriminate: a concrete
+    equivalence (same tens digit of the id) on four items. *)
+Module Example_abstract.
+Definition iso0 (x y : item) : bool := N.eqb (it_id x / 10) (it_id y / 10).
+Definition mk (n : N) : item := MkItem n [] (LG [] []).
+Definition data := [mk 11; mk 25; mk 17; mk 20].
+Lemma iso0_refl x : True -> iso0 x x = true. Proof. intros _. apply N.eqb_refl. Qed.
+Lemma iso0_sym x y : True -> True -> iso0 x y = true -> iso0 y x = true.
+Proof. unfold iso0. intros _ _ H. apply N.eqb_eq in H. apply N.eqb_eq. congruence. Qed.
+Lemma iso0_trans x y z : True -> True -> True -> iso0 x y = true -> iso0 y z = true -> iso0 x z = true.
+Proof. unfold iso0. intros _ _ _ H1 H2. apply N.eqb_eq in H1, H2. apply N.eqb_eq. congruence. Qed.
+Lemma attr0 x y : True -> True -> iso0 x y = true -> gc_key ANone x = gc_key ANone y. Proof. reflexivity. Qed.
+Lemma data_D : Forall (fun _ : item => True) data. Proof. repeat constructor. Qed.
+
+Example partition_nonvacuous :
+  gc_fit iso0 ANone data = [Some 0; Some 1; Some 0; Some 1] /\
+  exists ci cj, nth_error (gc_fit iso0 ANone data) 0 = Some (Some ci) /\
+                nth_error (gc_fit iso0 ANone data) 2 = Some (Some cj) /\ (ci = cj <-> iso0 (mk 11) (mk 17) = true).
+Proof.
+  split; [vm_compute; reflexivity|].
+  exact (partition iso0 ANone (fun _ => True) iso0_refl iso0_sym iso0_trans attr0 data data_D 0 2 (mk 11) (mk 17) eq_refl eq_refl).
+Qed.
+
+Example order_independent_nonvacuous :
+  gc_fit iso0 ANone (rev data) = [Some 0; Some 1; Some 0; Some 1] /\
+  length (fst (gc_iterative iso0 ANone data)) = length (fst (gc_iterative iso0 ANone (rev data))).
+Proof.
+  split; [vm_compute; reflexivity|].
+  exact (proj1 (order_independent iso0 ANone (fun _ => True) iso0_refl iso0_sym iso0_trans attr0 data (rev data)
+                  (Permutation_rev data) data_D)).
+Qed.
+
+Example incremental_nonvacuous :
+  lib_check iso0 ANone (mk 31) [(mk 11, 7%Z); (mk 25, 3%Z)] = (8%Z, [(mk 11, 7%Z); (mk 25, 3%Z); (mk 31, 8%Z)]) /\
+  lib_check iso0 ANone (mk 29) [(mk 11, 7%Z); (mk 25, 3%Z)] = (3%Z, [(mk 11, 7%Z); (mk 25, 3%Z)]) /\
+  coherent_iso iso0 (fun _ => True) [(mk 11, 7%Z); (mk 25, 3%Z)].
+Proof.
+  split; [vm_compute; reflexivity|]. split; [vm_compute; reflexivity|].
+  split; [repeat constructor|].
+  intros t t' [<-|[<-|[]]] [<-|[<-|[]]]; vm_compute; split; congruence.
+Qed.
+
+Example batch_equals_oneshot_nonvacuous :
+  fit iso0 ANone data [] (Some 3) [] = ([0; 1; 0; 1]%Z, [(mk 11, 0%Z); (mk 25, 1%Z)]) /\
+  fit iso0 ANone data [] None [1; 0] = ([0; 1; 0; 1]%Z, [(mk 17, 0%Z); (mk 25, 1%Z)]) /\
+  fst (fit iso0 ANone data [] (Some 3) []) = map class_z (gc_fit iso0 ANone data).
+Proof.
+  split; [vm_compute; reflexivity|]. split; [vm_compute; reflexivity|].
+  apply batch_equals_oneshot; [simpl; lia|]. intros x _. apply N.eqb_refl.
+Qed.
+End Example_abstract.
+
+(** (b) the instance used by the correspondence: isomorphism on element, charge and order decided by the
+    verified enumerator, on three tiny reaction-centre-like graphs (the second has one order changed). *)
+Module Example_graphs.
+Definition g1 : graph := LG [(1, [Some 1; Some 0]); (2, [Some 2; Some 0])]%N [((1, 2)%N, Some [2; 0]%Z)].
+Definition g2 : graph := LG [(1, [Some 1; Some 0]); (2, [Some 2; Some 0])]%N [((1, 2)%N, Some [4; 0]%Z)].
+Definition g3 : graph := LG [(8, [Some 2; Some 0]); (5, [Some 1; None])]%N [((8, 5)%N, Some [2; 0]%Z)].
+Definition pool := [MkItem 0 [] g1; MkItem 1 [] g2; MkItem 2 [] g3].
+Example graph_instance_nonvacuous :
+  gc_fit (item_iso true [9; 0]%N) ANone pool = [Some 0; Some 1; Some 0] /\
+  fst (fit (item_iso true [9; 0]%N) ANone pool [] (Some 1) []) = [0; 1; 0]%Z /\
+  gc_fit (item_iso false [9; 0]%N) ANone pool = [Some 0; Some 0; Some 0].
+Proof. repeat split; vm_compute; reflexivity. Qed.
+End Example_graphs.
